@@ -114,7 +114,7 @@ def run(ctx):
                     continue
             # K: the run's own schedule through the reference step function
             if rp[0] != 1:
-                ctx.mismatch("trace-replay", "factory %s: the order in which operations were started is not executable in the reference "
+                ctx.mismatch("trace-replay", "factory %s: the order in which the operations were handled is not executable in the reference "
                              "semantics; program %s schedule %s" % (f, E.pretty(p), o["ht"] or o["tr"]), case)
             elif rp[1] != 1 or rp[4:] != proj:
                 ctx.mismatch("trace-replay", "factory %s: replaying the run's schedule gives %s (terminal=%d), the run observed %s; program %s"
